@@ -615,6 +615,11 @@ func ruleTypestate(c *Ctx) {
 	if ai := b.findApply(); ai != nil {
 		b.rootOnlyForEmptyPointer(l, ai)
 	}
+	if lb := c.Legacy; lb != nil {
+		if ai := lb.findApply(); ai != nil {
+			lb.rootOnlyForEmptyPointer(l, ai)
+		}
+	}
 	// T1: producer side for eDoc
 	for _, fn := range a.fns {
 		allInstrs(fn, func(i ssa.Instruction) {
@@ -957,6 +962,7 @@ func ruleStaleRaw(c *Ctx) {
 	for _, b := range c.bodies() {
 		a := c.nilFor(b)
 		l := c.L
+		b.decoderEntryOnFreshNodes(l, a)
 		isArrayFn := b.roleFn("isArray")
 		// successState[f] = the constant f stores into recv.which (if exactly one)
 		successState := map[*ssa.Function]int64{}
